@@ -373,8 +373,14 @@ impl Report {
                     v.replay.display()
                 );
                 println!("  part={} signature={} hang={}", v.part, v.sig, v.hang);
+                // the full text is in the replay file
                 for l in v.msg.lines().take(12) {
-                    println!("  {}", l);
+                    if l.len() > 1200 {
+                        let cut = (0..=1200).rev().find(|i| l.is_char_boundary(*i)).unwrap_or(0);
+                        println!("  {} ... [{} more bytes]", &l[..cut], l.len() - cut);
+                    } else {
+                        println!("  {}", l);
+                    }
                 }
             }
             return 1;
